@@ -1,17 +1,26 @@
 """C07 — isomorphism verdicts, embeddings and pre-filters (GraphMatcherEngine, SubgraphMatch, graph_morphism).
 
-case = {"kind", "graphs": [G, ...], "engines": [{"na": [...], "ea": [...], "wl": bool, "mm": None|int}, ...],
-        "queries": [q, ...]}           -- a HISTORY: graph objects and engines are created once and shared by all queries
+case = {"kind", "graphs": [G, ...], "engines": [{"na": [...], "ea": [...], "wl": bool, "mm": None|int, optional "omit" / "none_lists" /
+        "backend"}, ...], "queries": [q, ...]}   -- a HISTORY: graph objects and engines are created once and shared by all queries
 q = ["iso",  e, i, j]                  GraphMatcherEngine.isomorphic(g_i, g_j)
   | ["maps", e, host, pattern]         GraphMatcherEngine.get_mappings(g_host, g_pattern)
   | ["pre",  e, host, pattern]         GraphMatcherEngine._pre_check(g_host, g_pattern)
-  | ["sub",  variant, child, parent, use_filter, "induced"|"mono", [[name, default], ...], edge_attribute|None]
+  | ["sub",  variant, child, parent, use_filter, check_type, [[name, default], ...], edge_attribute|None, comparators|None, extras]
                                        variant "sm" = SubgraphMatch.subgraph_isomorphism, "is" = SubgraphMatch.is_subgraph,
-                                       "gm" = graph_morphism.subgraph_isomorphism
-  | ["giso", i, j]                     graph_morphism.graph_isomorphism(g_i, g_j, use_defaults=True)
-Observable: one entry per query in history order (verdict; for "maps": [count, mapping set or [] when the set is not
-determined by the specification: max_mappings set, or the single-call isomorphism shortcut]), then the content of the WL cache for
-the graph objects of the case after the history: {(graph index, node_attrs) -> colour histogram}.
+                                       "gm" = graph_morphism.subgraph_isomorphism ("smp" / "isp" / "gmp": all options positionally);
+                                       every option as the caller writes it (check_type any string, use_filter any truthy / falsy value,
+                                       extras: names / defaults of different lengths, back-end name, comparators explicitly None)
+  | ["giso", i, j] | ["giso0", i, j]   graph_morphism.graph_isomorphism(g_i, g_j, use_defaults=True / False)
+  | ["fgi", i, j, use_defaults, fast]  graph_morphism.find_graph_isomorphism
+  | ["ctor", {keyword: raw value}]     GraphMatcherEngine(**keywords): the normalised options read back, or the exception class
+  | ["edit", i, k]                     the caller edits graph object i in place into graph value k
+Observable: one entry per query in history order — the answer AND the intermediate values (iso: [verdict, [host index, pattern index,
+_pre_check's answer, GraphMatcher method that decided]]; maps: [count, mapping set or [] when the set is not determined by the
+specification (max_mappings set, or the single-call isomorphism shortcut), [_pre_check's answer, method]]; sub: [answer or [99, exception
+code], method (0 = no matcher was built: the filter rejected)]; fgi: [a mapping was returned, its size]) — then the key set of the class-level
+WL cache after EVERY query, its content after the history ({(graph index, node_attrs) -> colour histogram}), and the flag "no query
+modified a graph object".  The intermediate values come from a recording subclass of networkx's GraphMatcher that the three anchored
+modules are made to build while impl() runs (behaviour unchanged, restored afterwards) and a reporting wrapper of _pre_check.
 """
 import itertools
 
@@ -23,12 +32,15 @@ PID = "C07"
 # Elaborating the case literals dominates the model stage (~0.3 ms per query, numerals are the expensive tokens): small numbers are
 # written as constants defined once per shard, and the (label names, edge attribute) pairs of the boolean subgraph queries are
 # let-bound once per case.  Plumbing only: the evaluated term is the same [run ...] / [run_h ...].
-COQ_HEADER = ("From Coq Require Import List NArith.\nFrom SK Require Import lib.Tok lib.LGraph model.C07_Model.\n"
+COQ_HEADER = ("From Coq Require Import List NArith.\nFrom SK Require Import lib.Tok lib.LGraph model.C07_Model model.C07_MCCS.\n"
               "Import ListNotations.\n"
               + "".join("Definition n%d := %d%%nat.\n" % (i, i) for i in range(10))
               + "".join("Definition k%d := %d%%N.\n" % (i, i) for i in range(200))
-              + "Definition QS (gm : bool) (c p : nat) (f ind : bool) (z : cmp * cmp * list (N * N) * option N) : query := "
-                "QSub gm c p f ind (fst (fst (fst z))) (snd (fst (fst z))) (snd (fst z)) (snd z).\n")
+              + "Definition ZT : Type := (list N * list N * eattr_raw * option cmp * option cmp)%type.\n"
+              + "Definition SS {X : Type} (x : X) : option (option X) := Some (Some x).\n"
+              + "Definition EO (na ea : option (option (list N))) (wl : option bool) (mm : option (option N)) : engine := eng_of (ER None na ea wl mm).\n"
+              + "Definition QE (fn : sub_fn) (c p : nat) (f : bool) (ct be : N) (z : ZT) : query := "
+                "QEntry fn c p (SO (fst (fst (fst (fst z)))) (snd (fst (fst (fst z)))) (snd (fst (fst z))) f ct (snd (fst z)) (snd z) be).\n")
 SHARD = 120
 # quick tier: both stages must end with a verdict inside the 900 s limit of the evaluation sandbox (thorough: x4 by main.py)
 IMPL_TIMEOUT = 300
@@ -73,13 +85,15 @@ ASSUMPTIONS = ["simple undirected graphs without self-loops (gwf: distinct node 
                "attribute values are JSON scalars compared with Python ==; values of one attribute are mutually comparable (absent is allowed)",
                "graph objects are not mutated between queries of WL-FILTERING engines (the class documents that its histogram cache goes "
                "stale otherwise); engines without the filter are covered under in-place edits (C07_edits_wl_off)",
-               "custom node/edge comparators and matcher callables are not used (default operator.eq / default matchers)",
+               "custom node/edge comparators of the subgraph tests: the modelled family (eq, accept-all, symmetric wildcard, pattern-side wildcard); "
+               "matcher callables of graph_isomorphism / find_graph_isomorphism are not used (default matchers)",
                "get_mappings non-emptiness: max_mappings != 0"]
 TESTED_NOT_PROVED = ["networkx VF2 meets vf2b_contract / enum_contract / enum_complete (compared with the verified enumerator on every case)",
                      "WHICH mappings the equal-size shortcut (gm.mapping) and a max_mappings slice return: the theorems cover any VF2 order "
                      "(C07_embeddings: each is valid; C07_max_mappings_slice: prefix of the unlimited result), the correspondence compares "
                      "their count, the oracle their validity",
-                     "the mapping returned by find_graph_isomorphism is an isomorphism G1 -> G2 (oracle; the model returns the verdict)",
+                     "WHICH isomorphism find_graph_isomorphism returns (C07_fgi_mapping: whichever it is, it is an isomorphism G1 -> G2; compared by size, "
+                     "judged by the oracle)",
                      "maximum_connected_common_subgraph / heuristics_MCCS, rule_subgraph_morphism, mod/rule back-end, DiGraph / MultiGraph "
                      "inputs of find_graph_isomorphism: outside the property text / not installed"]
 TECHNIQUE = "Coq 8.16 proof about an executable Gallina model + per-run correspondence (vm_compute digest vs implementation) + independent brute-force property oracle"
@@ -93,10 +107,15 @@ LEVEL_TEXT = ("Machine-checked proof (Coq, all inputs, Closed under the global c
               "every pre-filter (node count, edge count, WL-1 histogram containment on equal orders, node-label / edge-label existence) "
               "is a necessary condition for containment, hence switching it changes no verdict and no result list; for every query "
               "history each answer equals the fresh engine's answer (cache invariant); find_graph_isomorphism / graph_isomorphism verdicts (fast "
-              "invariant check is necessary); unlimited get_mappings returns every embedding once, max_mappings=k its first k; histories "
-              "with in-place edits for non-filtering engines.  VF2 enters as explicit premises, proved for "
-              "the verified enumerator the model run uses.  Model tied to the code by per-query comparison on exhaustive small scopes, "
-              "random pairs and query histories on every run.")
+              "invariant check is necessary) and the mapping it returns is an isomorphism G1 -> G2; unlimited get_mappings returns every "
+              "embedding once, max_mappings=k its first k; histories with in-place edits for non-filtering engines; the option layer of "
+              "the three boolean subgraph entry points as the caller passes them (zipped name / default lists, edge attribute None / '' / "
+              "name, check_type strings, comparators possibly None, the facade is_subgraph and its back-end names) and of the engine "
+              "constructor (C07_entry_spec, C07_entry_filter_transparent, C07_is_subgraph_facade, C07_check_type_spellings, C07_engine_ctor).  "
+              "VF2 enters as explicit premises, proved for "
+              "the verified enumerator the model run uses.  Model tied to the code by per-query comparison of answers AND intermediate values "
+              "(which graphs _pre_check receives and what it answers, whether a GraphMatcher is built, with which argument order, which method "
+              "decides, the cache key set after every query) on exhaustive small scopes, random pairs and query histories on every run.")
 LEVEL_NOTE = ("Trusted: Coq kernel, the model, the harness encoder, the VF2 contracts (monitored, networkx is not verified). "
               "Theorems assume well-formed simple graphs and unmutated graph objects.")
 
@@ -117,7 +136,31 @@ def _engine(spec):
         for k in ("node_attrs", "edge_attrs"):
             if k in kw and kw[k] == []:
                 kw[k] = None
+    if "backend" in spec:                 # another spelling of "nx" (the constructor lower-cases it)
+        kw["backend"] = spec["backend"]
     return GraphMatcherEngine(**kw)
+
+
+def _ctor_call(kw):
+    """GraphMatcherEngine(**kw) with raw keyword values: the normalised options read back from the object, or [99, code]."""
+    from synkit.Graph.Matcher.graph_matcher import GraphMatcherEngine
+    try:
+        e = GraphMatcherEngine(**kw)
+    except (ValueError, ImportError) as ex:
+        return [99, ERR_CODES[type(ex).__name__]]
+    assert e.backend == "nx" and isinstance(e.wl1_filter, bool)
+    return [[_key(k, None) for k in e.node_attrs], [_key(k, None) for k in e.edge_attrs], e.wl1_filter,
+            [] if e.max_mappings is None else [e.max_mappings]]
+
+
+def _sub_opts(q):
+    """Raw options of a boolean-subgraph query.  q[9] (optional dict): "nn" / "nd" = names and defaults as two separate lists (may differ
+    in length: the code zips them), "backend" (is_subgraph only), "cmp_none" (comparators passed explicitly as None)."""
+    names = q[6]
+    ex = q[9] if len(q) > 9 else {}
+    nn = list(ex["nn"]) if "nn" in ex else [a for a, _ in names]
+    nd = list(ex["nd"]) if "nd" in ex else [d for _, d in names]
+    return nn, nd, ex
 
 
 def _sub_call(q, gs):
@@ -125,9 +168,11 @@ def _sub_call(q, gs):
     from synkit.Graph.Matcher.subgraph_matcher import SubgraphMatch
     from synkit.Graph.Matcher import graph_morphism as GM
     _, variant, c, p, filt, ctype, names, eattr = q[:8]
-    nn, nd = [a for a, _ in names], [d for _, d in names]
-    if len(q) > 8:            # custom comparators (only the two subgraph_isomorphism functions take them)
-        nc, ec = _comparator(q[8][0]), _comparator(q[8][1])
+    nn, nd, ex = _sub_opts(q)
+    backend = ex.get("backend", "nx")
+    if (len(q) > 8 and q[8] is not None) or ex.get("cmp_none"):            # custom comparators (only the two subgraph_isomorphism functions take them)
+        cm = q[8] if len(q) > 8 and q[8] is not None else ["eq", "eq"]
+        nc, ec = _comparator(cm[0]), _comparator(cm[1])
         f = SubgraphMatch.subgraph_isomorphism if variant.startswith("sm") else GM.subgraph_isomorphism
         if variant.endswith("p"):
             return f(gs[c], gs[p], nn, nd, eattr, filt, ctype, nc, ec)
@@ -140,13 +185,134 @@ def _sub_call(q, gs):
         return SubgraphMatch.subgraph_isomorphism(gs[c], gs[p], nn, nd, eattr, filt, ctype)
     if variant == "is":
         return SubgraphMatch.is_subgraph(gs[c], gs[p], node_label_names=nn, node_label_default=nd, edge_attribute=eattr,
-                                         use_filter=filt, check_type=ctype, backend="nx")
+                                         use_filter=filt, check_type=ctype, backend=backend)
     if variant == "isp":
-        return SubgraphMatch.is_subgraph(gs[c], gs[p], nn, nd, eattr, filt, ctype, "nx")
+        return SubgraphMatch.is_subgraph(gs[c], gs[p], nn, nd, eattr, filt, ctype, backend)
     if variant == "gmp":
         return GM.subgraph_isomorphism(gs[c], gs[p], nn, nd, eattr, filt, ctype)
     return GM.subgraph_isomorphism(gs[c], gs[p], node_label_names=nn, node_label_default=nd, edge_attribute=eattr,
                                    use_filter=filt, check_type=ctype)
+
+
+ERR_CODES = {"TypeError": 1, "ImportError": 2, "ValueError": 3}
+
+
+def _sub_result(q, gs):
+    """The entry point's answer, or [99, code] for the exception classes that are part of its contract (None as edge attribute in
+    SubgraphMatch, an uninstalled / unknown back-end of is_subgraph)."""
+    try:
+        return bool(_sub_call(q, gs))
+    except (TypeError, ImportError, ValueError) as ex:
+        return [99, ERR_CODES[type(ex).__name__]]
+
+
+def _sub_odd(q):
+    """Option values outside the documented ones (judged by the correspondence and for filter neutrality, not against the definition)."""
+    nn, nd, ex = _sub_opts(q)
+    return q[5] not in ("induced", "mono", "monomorphism") or len(nn) != len(nd) or ex.get("backend", "nx") != "nx" or \
+        (q[7] is None and not q[1].startswith("gm"))
+
+
+# ------------------------------------------------------------------ intermediate values: which matcher is built, which method decides
+
+class _Rec:
+    events = None
+
+
+def _rec_matcher_class():
+    from networkx.algorithms.isomorphism import GraphMatcher
+
+    class RecGM(GraphMatcher):
+        def __init__(self, G1, G2, node_match=None, edge_match=None):
+            self._rec = None
+            if _Rec.events is not None:
+                self._rec = ["gm", id(G1), id(G2), 0]
+                _Rec.events.append(self._rec)
+            super().__init__(G1, G2, node_match=node_match, edge_match=edge_match)
+
+        def _note(self, code):
+            if self._rec is not None and self._rec[3] == 0:
+                self._rec[3] = code
+
+        def is_isomorphic(self):
+            self._note(1)
+            return super().is_isomorphic()
+
+        def subgraph_is_isomorphic(self):
+            self._note(2)
+            return super().subgraph_is_isomorphic()
+
+        def subgraph_isomorphisms_iter(self):
+            self._note(3)
+            return super().subgraph_isomorphisms_iter()
+
+        def subgraph_is_monomorphic(self):
+            self._note(4)
+            return super().subgraph_is_monomorphic()
+    return RecGM
+
+
+class _Recording:
+    """Context manager: the three anchored modules build a recording subclass of networkx's GraphMatcher, and _pre_check reports its
+    arguments and answer.  Behaviour is unchanged; everything is restored on exit."""
+
+    def __enter__(self):
+        from synkit.Graph.Matcher import graph_matcher as M1, subgraph_matcher as M2, graph_morphism as M3
+        self.saved = [(M1, "_NXGraphMatcher", M1._NXGraphMatcher), (M2, "GraphMatcher", M2.GraphMatcher), (M3, "GraphMatcher", M3.GraphMatcher)]
+        cls = _rec_matcher_class()
+        for mod, name, _ in self.saved:
+            setattr(mod, name, cls)
+        self.eng = M1.GraphMatcherEngine
+        self.orig_pre = M1.GraphMatcherEngine.__dict__["_pre_check"]
+        orig = self.orig_pre
+
+        def _pre_check(this, host, pattern):
+            r = orig(this, host, pattern)
+            if _Rec.events is not None:
+                _Rec.events.append(["pre", id(host), id(pattern), bool(r)])
+            return r
+        M1.GraphMatcherEngine._pre_check = _pre_check
+        _Rec.events = []
+        return self
+
+    def __exit__(self, *a):
+        for mod, name, val in self.saved:
+            setattr(mod, name, val)
+        self.eng._pre_check = self.orig_pre
+        _Rec.events = None
+        return False
+
+
+def _trace(q, gs):
+    """The intermediate values of the last query, from the recorded events (graph objects as indices of the case)."""
+    idx = {id(g): i for i, g in enumerate(gs)} if isinstance(gs, list) else {id(g): i for i, g in gs.items()}
+    ev, _Rec.events = _Rec.events, []
+    pre = [e for e in ev if e[0] == "pre"]
+    gm = [e for e in ev if e[0] == "gm"]
+    if len(gm) > 1 or len(pre) > 1:
+        return [1000 + len(gm), len(pre)]            # never equals a model value
+    k = q[0]
+    if k == "iso":
+        if len(pre) != 1:
+            return [1001]
+        h, p, ok = idx.get(pre[0][1], 777), idx.get(pre[0][2], 777), pre[0][3]
+        if not gm:
+            return [h, p, int(ok), 0]
+        good = (gm[0][1], gm[0][2]) == (pre[0][2], pre[0][1])          # GraphMatcher(smaller = pattern, larger = host)
+        return [h, p, int(ok), gm[0][3] if good else 100 + gm[0][3]]
+    if k == "maps":
+        if len(pre) != 1 or (pre[0][1], pre[0][2]) != (id(gs[q[2]]), id(gs[q[3]])):
+            return [1002]
+        if not gm:
+            return [int(pre[0][3]), 0]
+        good = (gm[0][1], gm[0][2]) == (id(gs[q[2]]), id(gs[q[3]]))    # GraphMatcher(host, pattern)
+        return [int(pre[0][3]), gm[0][3] if good else 100 + gm[0][3]]
+    if k == "sub":
+        if not gm:
+            return 0
+        good = (gm[0][1], gm[0][2]) == (id(gs[q[3]]), id(gs[q[2]]))    # GraphMatcher(parent, child)
+        return gm[0][3] if good else 100 + gm[0][3]
+    return None
 
 
 def _comparator(spec):
@@ -184,6 +350,8 @@ def _determined(spec, h, p):
 def _run_query(q, gs, engs, specs):
     from synkit.Graph.Matcher import graph_morphism as GM
     k = q[0]
+    if k == "ctor":
+        return _ctor_call(q[1])
     if k == "iso":
         return bool(engs[q[1]].isomorphic(gs[q[2]], gs[q[3]]))
     if k == "pre":
@@ -191,7 +359,7 @@ def _run_query(q, gs, engs, specs):
     if k == "maps":
         return engs[q[1]].get_mappings(gs[q[2]], gs[q[3]])
     if k == "sub":
-        return bool(_sub_call(q, gs))
+        return _sub_result(q, gs)
     pos = (q[1] + q[2]) % 2 == 1          # helpers called with every option POSITIONALLY for odd index sums, by keyword otherwise
     if k == "giso":
         if pos:
@@ -208,13 +376,29 @@ def _run_query(q, gs, engs, specs):
     raise AssertionError(k)
 
 
-def _obs(q, r, gs, specs):
+def _obs(q, r, gs, specs, trace=None):
     if q[0] == "fgi":
-        return r is not None
+        return [r is not None, len(r) if r is not None else 0]
+    if q[0] == "ctor":
+        return list(r)
+    if q[0] == "iso":
+        return [r, trace]
+    if q[0] == "sub":
+        return [list(r) if isinstance(r, list) else r, trace]        # (a copy: the caller spoils what it was handed)
     if q[0] != "maps":
         return r
     det = _determined(specs[q[1]], gs[q[2]], gs[q[3]])
-    return [len(r), S([S([[a, b] for a, b in m.items()]) for m in r]) if det else S([])]
+    return [len(r), S([S([[a, b] for a, b in m.items()]) for m in r]) if det else S([]), trace]
+
+
+def _cache_keys(case, gs, dyn):
+    """Key set of the class-level WL cache for the graph objects of this case (observed after every query)."""
+    from synkit.Graph.Matcher.graph_matcher import GraphMatcherEngine
+    out = []
+    for i, g in enumerate(gs):
+        for attrs in (GraphMatcherEngine._wl_cache.get(g) or {}):
+            out.append([i, [_key(k, dyn) for k in attrs]])
+    return S(out)
 
 
 def _cache_obs(case, gs):
@@ -258,23 +442,81 @@ def _n_objects(case):
     return case.get("objects", len(case["graphs"]))
 
 
+MCCS_KINDS = ("mccs", "hmccs")
+
+
+def _is_mccs(case):
+    return bool(case["queries"]) and case["queries"][0][0] in MCCS_KINDS
+
+
+def _mccs_call(q, gs):
+    """["mccs", i, j, [[name, default], ...], edge_attribute] | ["hmccs", [i, ...], names, edge_attribute]; q[4] == "default" = keyword omitted."""
+    from synkit.Graph.Matcher import graph_morphism as GM
+    names = q[3] if q[0] == "mccs" else q[2]
+    eattr = q[4] if q[0] == "mccs" else q[3]
+    kw = {}
+    if names != "default":
+        kw.update(node_label_names=[a for a, _ in names], node_label_default=[d for _, d in names])
+    if eattr != "default":
+        kw["edge_attribute"] = eattr
+    if q[0] == "mccs":
+        return GM.maximum_connected_common_subgraph(gs[q[1]], gs[q[2]], **kw)
+    try:
+        return GM.heuristics_MCCS([gs[i] for i in q[1]], **kw)
+    except ValueError:
+        return [99, 3]
+
+
+def _graph_obs(r, codes, dyn):
+    def at(a):
+        return S([[0, v] if k == "hcount" else [_key(k, dyn), codes(v)] for k, v in a.items() if v is not None])
+    return [S([[n, at(a)] for n, a in r.nodes(data=True)]), S([[S([u, v]), at(a)] for u, v, a in r.edges(data=True)])]
+
+
+def _impl_mccs(case):
+    import networkx as nx
+    gs = [G.to_nx(g) for g in case["graphs"]]
+    sigs = [_graph_sig(g) for g in gs]
+    codes, dyn = _intern(case)
+    out, untouched = [], True
+    for q in case["queries"]:
+        r = _mccs_call(q, gs)
+        if isinstance(r, list):
+            out.append(r)
+            continue
+        out.append(_graph_obs(r, codes, dyn))
+        if isinstance(r, nx.Graph):           # the caller edits the returned graph: the inputs must not notice (it is a copy)
+            r.add_node("spoiled", element="X")
+            for n in list(r.nodes):
+                r.nodes[n]["element"] = "X"
+        untouched = untouched and all(_graph_sig(g) == sg for g, sg in zip(gs, sigs))
+    return [out, untouched]
+
+
 def impl(case):
     """graph OBJECTS = the first case["objects"] graphs (default: all); ["edit", i, k] edits object i in place into graph value k."""
+    if _is_mccs(case):
+        return _impl_mccs(case)
     gs = [G.to_nx(g) for g in case["graphs"][:_n_objects(case)]]
     engs = [_engine(s) for s in case["engines"]]
     ans = []
     sigs = [_graph_sig(g) for g in gs]
     untouched = True
-    for q in case["queries"]:
-        if q[0] == "edit":
-            _edit_in_place(gs[q[1]], case["graphs"][q[2]])
-            sigs[q[1]] = _graph_sig(gs[q[1]])
-            continue
-        r = _run_query(q, gs, engs, case["engines"])
-        ans.append(_obs(q, r, gs, case["engines"]))
-        _spoil(r)
-        untouched = untouched and all(_graph_sig(g) == sg for g, sg in zip(gs, sigs))
-    return ans + [_cache_obs(case, gs), untouched]
+    _, dyn = _intern(case)
+    keys = []
+    with _Recording():
+        for q in case["queries"]:
+            if q[0] == "edit":
+                _edit_in_place(gs[q[1]], case["graphs"][q[2]])
+                sigs[q[1]] = _graph_sig(gs[q[1]])
+                continue
+            _Rec.events = []
+            r = _run_query(q, gs, engs, case["engines"])
+            ans.append(_obs(q, r, gs, case["engines"], _trace(q, gs)))
+            _spoil(r)
+            keys.append(_cache_keys(case, gs, dyn))
+            untouched = untouched and all(_graph_sig(g) == sg for g, sg in zip(gs, sigs))
+    return ans + [keys, _cache_obs(case, gs), untouched]
 
 
 # ------------------------------------------------------------------ model encoder
@@ -303,6 +545,7 @@ class _Codes:
 def _key(name, dyn):
     if name in KEYS:
         return KEYS[name]
+    assert dyn is not None, "constructor queries use the fixed attribute names only"
     if name not in dyn:
         dyn[name] = 10 + len(dyn)
     return dyn[name]
@@ -333,43 +576,116 @@ def _intern(case):
     return codes, dyn
 
 
-def coq_case(case):
+def _raw_of_spec(s):
+    """The constructor keywords of an engine spec, as _engine passes them."""
+    omit = s.get("omit", ())
+    kw = {}
+    if "backend" in s:
+        kw["backend"] = s["backend"]
+    for k, v in (("node_attrs", s["na"]), ("edge_attrs", s["ea"])):
+        if k not in omit:
+            kw[k] = None if (s.get("none_lists") and v == []) else list(v)
+    if "wl1_filter" not in omit:
+        kw["wl1_filter"] = s["wl"]
+    if "max_mappings" not in omit:
+        kw["max_mappings"] = s["mm"]
+    return kw
+
+
+def _craw(kw, short=False):
+    """Gallina literal of the raw constructor keywords (outer None = keyword omitted); short: through the header's EO when no back-end is named."""
+    def lst(k):
+        if k not in kw:
+            return "None"
+        if kw[k] is None:
+            return "(Some None)"
+        return "(SS %s)" % clist([cN(_key(a, None)) for a in kw[k]])
+    be = "None" if "backend" not in kw else "(Some %s)" % clist([cN(b) for b in kw["backend"].encode("ascii")])
+    wl = "None" if "wl1_filter" not in kw else "(Some %s)" % cbool(bool(kw["wl1_filter"]))
+    mm = "None" if "max_mappings" not in kw else "(Some None)" if kw["max_mappings"] is None else "(SS %s)" % cN(kw["max_mappings"])
+    if short and "backend" not in kw:
+        return "(EO %s %s %s %s)" % (lst("node_attrs"), lst("edge_attrs"), wl, mm)
+    r = "(ER %s %s %s %s %s)" % (be, lst("node_attrs"), lst("edge_attrs"), wl, mm)
+    return "(eng_of %s)" % r if short else r
+
+
+def _coq_mccs(case):
     codes, dyn = _Codes(), {}
     try:
         gs = clist([G.coq_lgraph(g, lambda n, a: _attrs(a, codes, dyn), lambda u, v, a: _attrs(a, codes, dyn)) for g in case["graphs"]])
-        es = clist(["(Eng %s %s %s %s)" % (clist([cN(_key(k, dyn)) for k in s["na"]]), clist([cN(_key(k, dyn)) for k in s["ea"]]),
-                                             cbool(s["wl"]), copt(None if s["mm"] is None else cN(s["mm"]))) for s in case["engines"]])
         qs = []
-        shared = []           # distinct (names, edge attribute) literals of the case, let-bound as z0, z1, ...
+        for q in case["queries"]:
+            names = q[3] if q[0] == "mccs" else q[2]
+            eattr = q[4] if q[0] == "mccs" else q[3]
+            names = [["element", "*"], ["charge", 0]] if names == "default" else names
+            eattr = "standard_order" if eattr == "default" else eattr
+            if eattr == "hcount" or any(a == "hcount" for a, _ in names) or not isinstance(eattr, str):
+                return None
+            nl, dl = clist([cN(_key(a, dyn)) for a, _ in names]), clist([cN(codes(d)) for _, d in names])
+            tail = "%s %s %s %s" % (nl, dl, cN(_key(eattr, dyn)), cN(codes(1)))
+            if q[0] == "mccs":
+                qs.append("(MQ %s %s %s)" % (cnat(q[1]), cnat(q[2]), tail))
+            else:
+                qs.append("(MH %s %s)" % (clist([cnat(i) for i in q[1]]), tail))
+    except TypeError:
+        return None
+    for g in case["graphs"]:
+        if any(u == v for u, v, _ in g["edges"]):
+            return None
+    return "L [run_mccs %s %s; tbool true]" % (gs, clist(qs))
+
+
+def coq_case(case):
+    if _is_mccs(case):
+        return _coq_mccs(case)
+    codes, dyn = _Codes(), {}
+    try:
+        gs = clist([G.coq_lgraph(g, lambda n, a: _attrs(a, codes, dyn), lambda u, v, a: _attrs(a, codes, dyn)) for g in case["graphs"]])
+        es = clist([_craw(_raw_of_spec(s), short=True) for s in case["engines"]])
+        qs = []
+        shared = []           # distinct (names, defaults, edge attribute, comparators) literals of the case, let-bound as z0, z1, ...
+        ctypes = {"induced": 0}   # check_type strings, interned (the code only tests == "induced")
         edits = any(q[0] == "edit" for q in case["queries"])
         wrap = (lambda t: "(HQ %s)" % t) if edits else (lambda t: t)
         for q in case["queries"]:
             k = q[0]
             if k == "edit":
                 qs.append("(HEdit %s %s)" % (cnat(q[1]), cnat(q[2])))
+            elif k == "ctor":
+                qs.append(wrap("(QCtor %s)" % _craw(q[1])))
             elif k in ("iso", "maps", "pre"):
                 qs.append(wrap("(%s %s %s %s)" % ({"iso": "QIso", "maps": "QMaps", "pre": "QPre"}[k], cnat(q[1]), cnat(q[2]), cnat(q[3]))))
             elif k == "sub":
                 _, variant, c, p, filt, ctype, names, eattr = q[:8]
-                cmps = q[8] if len(q) > 8 else ["eq", "eq"]
-                if eattr == "hcount" or (cmps != ["eq", "eq"] and "hcount" in [a for a, _ in names]):
+                cmps = q[8] if len(q) > 8 and q[8] is not None else None
+                nn, nd, ex = _sub_opts(q)
+                if eattr == "hcount" or (cmps not in (None, ["eq", "eq"]) and "hcount" in nn):
                     return None
+                if variant.startswith("is"):
+                    assert cmps is None and not ex.get("cmp_none"), "is_subgraph takes no comparators"
 
                 def ccmp(sp):
-                    return "CEq" if sp == "eq" else "CAny" if sp == "any" else "(%s %s)" % ("CWild" if sp[0] == "wild" else "CPatWild", cN(codes(sp[1])))
-                nml = []
-                for a, d in names:
-                    if a == "hcount":
+                    return "None" if sp is None or sp == "eq" else "(Some CAny)" if sp == "any" else \
+                        "(Some (%s %s))" % ("CWild" if sp[0] == "wild" else "CPatWild", cN(codes(sp[1])))
+                dl = []
+                for t, d in enumerate(nd):
+                    if t < len(nn) and nn[t] == "hcount":
                         if isinstance(d, bool) or not isinstance(d, int) or d < 0:
                             return None
-                        nml.append("(%s, %s)" % (cN(0), cN(d)))
+                        dl.append(cN(d))
                     else:
-                        nml.append("(%s, %s)" % (cN(_key(a, dyn)), cN(codes(d))))
-                z = "(%s, %s, %s, %s)" % (ccmp(cmps[0]), ccmp(cmps[1]), clist(nml), copt(None if not eattr else cN(_key(eattr, dyn))))
+                        dl.append(cN(codes(d)))
+                nl = [cN(0) if a == "hcount" else cN(_key(a, dyn)) for a in nn]
+                ea = "EaNone" if eattr is None else "(EaEmpty %s)" % cN(_key("", dyn)) if eattr == "" else "(EaKey %s)" % cN(_key(eattr, dyn))
+                z = "(%s, %s, %s, %s, %s)" % (clist(nl), clist(dl), ea, ccmp(cmps[0] if cmps else None), ccmp(cmps[1] if cmps else None))
                 if z not in shared:
                     shared.append(z)
-                qs.append(wrap("(QS %s %s %s %s %s z%d)" % (cbool(variant.startswith("gm")), cnat(c), cnat(p), cbool(filt), cbool(ctype == "induced"),
-                                                            shared.index(z))))
+                if ctype not in ctypes:
+                    ctypes[ctype] = len(ctypes)
+                backend = ex.get("backend", "nx")
+                bcode = {"nx": 0, "mod": 1}.get(backend, 2 + (sum(backend.encode()) % 50))
+                qs.append(wrap("(QE %s %s %s %s %s %s z%d)" % ({"s": "FnSM", "i": "FnIS", "g": "FnGM"}[variant[0]], cnat(c), cnat(p), cbool(bool(filt)),
+                                                                cN(ctypes[ctype]), cN(bcode), shared.index(z))))
             elif k == "giso":
                 qs.append(wrap("(QGiso %s %s %s %s %s)" % (cnat(q[1]), cnat(q[2]), cN(codes("*")), cN(codes(0)), cN(codes(1)))))
             elif k == "giso0":
@@ -383,7 +699,7 @@ def coq_case(case):
     for g in case["graphs"]:
         if any(u == v for u, v, _ in g["edges"]):
             return None
-    lets = "".join("let z%d : cmp * cmp * list (N * N) * option N := %s in " % (i, z) for i, z in enumerate(shared))
+    lets = "".join("let z%d : ZT := %s in " % (i, z) for i, z in enumerate(shared))
     if edits:
         return "%srun_h %s %s %s %s" % (lets, gs, cnat(_n_objects(case)), es, clist(qs))
     if _n_objects(case) != len(case["graphs"]):
@@ -467,6 +783,8 @@ def _hset(g):
 
 def oracle(case):
     fails = []
+    if _is_mccs(case):       # the common-subgraph helpers are outside the property text: correspondence (and theorems) only
+        return fails
 
     def bad(clause, detail):
         fails.append(dict(clause=clause, detail=detail))
@@ -559,8 +877,23 @@ def oracle(case):
                 bad("precheck-sound", "%s: pre-check rejects although an embedding exists" % tag)
         elif k == "sub":
             _, variant, c, p, filt, ctype, names, eattr = q[:8]
-            cmps = q[8] if len(q) > 8 else ["eq", "eq"]
-            nmatch = lambda h, pp: all(_cmp_eval(cmps[0], h.get(a, d), pp.get(a, d)) for a, d in names)
+            nn, nd, ex = _sub_opts(q)
+            odd = _sub_odd(q)
+            if not isinstance(got, bool):
+                if not odd:
+                    bad("subgraph-def", "%s: the call raised (%r) for documented option values" % (tag, got))
+                continue
+            if odd:
+                # undocumented option values: only "the pre-filter never changes the verdict" is judged
+                q2 = list(q)
+                q2[4] = not filt
+                other = _sub_result(q2, {c: fresh_graph(c), p: fresh_graph(p)} if c != p else {c: fresh_graph(c)})
+                if isinstance(other, bool) and other != got:
+                    bad("filter-neutral", "%s: verdict %r, with use_filter=%r: %r" % (tag, got, not filt, other))
+                continue
+            cmps = q[8] if len(q) > 8 and q[8] is not None else ["eq", "eq"]
+            sel = list(zip(nn, nd))
+            nmatch = lambda h, pp: all(_cmp_eval(cmps[0], h.get(a, d), pp.get(a, d)) for a, d in sel)
             ematch = (lambda h, pp: _cmp_eval(cmps[1], h.get(eattr), pp.get(eattr))) if eattr else (lambda h, pp: True)
             want = bool(_embed(gs[c], gs[p], nmatch, ematch, ctype == "induced", first_only=True))
             if got != want:
@@ -602,8 +935,11 @@ def _verdicts(obs):
     for o in obs:
         if isinstance(o, bool):
             out.append(o)
-        elif isinstance(o, list) and o and isinstance(o[0], int):
-            out.append(o[0] > 0)
+        elif isinstance(o, list) and o:
+            if isinstance(o[0], bool):                       # iso / sub / fgi: [verdict, intermediate values]
+                out.append(o[0])
+            elif isinstance(o[0], int) and len(o) == 3:      # maps: [count, mapping set, intermediate values]
+                out.append(o[0] > 0)
     return out
 
 
@@ -623,11 +959,13 @@ def distribution(cases, obss):
         inc(d["history_length"], min(len(c["queries"]), 40) // 5 * 5)
         for g in c["graphs"]:
             inc(d["graph_nodes"], len(g["nodes"]))
-        for s in c["engines"]:
+        for s in c.get("engines", ()):
             inc(d["engines_wl"], s["wl"])
             inc(d["attr_selection"], "/".join(s["na"]) + "|" + "/".join(s["ea"]))
         for q in c["queries"]:
             inc(d["query_kinds"], q[0] + (":" + q[1] if q[0] == "sub" else ""))
+            if q[0] in MCCS_KINDS:
+                continue
             if q[0] == "sub":
                 d["sub_filter_on"] += bool(q[4])
                 d["sub_induced" if q[5] == "induced" else "sub_mono"] += 1
@@ -702,19 +1040,25 @@ def _engines(rng):
         es[3] = {"na": [], "ea": [], "wl": rng.random() < 0.5, "mm": 1, "omit": ["max_mappings"], "none_lists": True}
     elif z < 0.20:     # max_mappings=0 / a large limit
         es[3] = dict(es[3], mm=rng.choice([0, 0, 50]))
+    if rng.random() < 0.1:     # the back-end named explicitly, in another spelling (the constructor lower-cases it)
+        k = rng.randrange(len(es))
+        es[k] = dict(es[k], backend=rng.choice(["nx", "NX", "Nx", "nX"]))
     return es
 
 
-def _battery(rng, pairs, n_eng, subs=True, nosubs=(), alt=True, nfixed=8):
-    """A shuffled battery of queries over the given ordered graph-index pairs (no boolean-subgraph queries for pairs in nosubs)."""
+def _battery(rng, pairs, n_eng, subs=True, nosubs=(), alt=True, nfixed=8, thin=0.0):
+    """A shuffled battery of queries over the given ordered graph-index pairs (no boolean-subgraph queries for pairs in nosubs).
+    thin: probability of leaving out an isomorphic / get_mappings query of the two DRAWN engines (the two fixed ones ask always)."""
     qs = []
     all_subs = subs
     for (i, j) in pairs:
         subs = all_subs and (i, j) not in nosubs
         for e in range(n_eng):
-            qs.append(["iso", e, i, j])
-            qs.append(["maps", e, i, j])
-            if rng.random() < 0.5:
+            if e < 2 or rng.random() >= thin:
+                qs.append(["iso", e, i, j])
+            if e < 2 or rng.random() >= thin:
+                qs.append(["maps", e, i, j])
+            if rng.random() < (0.5 if e < 2 else 0.5 * (1 - thin)):
                 qs.append(["pre", e, i, j])
         if subs:
             fixed = [["sub", variant, j, i, filt, ctype, NAMES_DEF, "order"]
@@ -738,6 +1082,10 @@ def _battery(rng, pairs, n_eng, subs=True, nosubs=(), alt=True, nfixed=8):
                 nmz = rng.choice([NAMES_DEF, [["element", "*"]], [["charge", 0], ["element", "*"]]])
                 for filt in (False, True):
                     qs.append(["sub", v, j, i, filt, ct, nmz, "order", cm])
+            if alt and rng.random() < 0.35:
+                qs.append(_odd_sub(rng, j, i))
+            if alt and rng.random() < 0.15:
+                qs.append(["ctor", dict(rng.choice(CTOR_POOL))])
             qs.append(["giso", i, j])
             if alt and rng.random() < 0.5:
                 qs.append(["giso0", i, j])
@@ -745,6 +1093,36 @@ def _battery(rng, pairs, n_eng, subs=True, nosubs=(), alt=True, nfixed=8):
                 qs.append(["fgi", i, j, rng.random() < 0.7 or not alt, rng.random() < 0.6])
     rng.shuffle(qs)
     return qs
+
+
+CTOR_POOL = [{}, {"backend": "nx"}, {"backend": "NX"}, {"backend": "Nx", "node_attrs": ["element"]}, {"backend": "mod"}, {"backend": "MOD"},
+             {"backend": "rule"}, {"backend": "Rule", "wl1_filter": True}, {"backend": ""}, {"backend": "networkx"}, {"backend": "nx "},
+             {"node_attrs": None, "edge_attrs": None}, {"node_attrs": [], "wl1_filter": 1}, {"wl1_filter": ""}, {"wl1_filter": "no"},
+             {"wl1_filter": None, "edge_attrs": ["order"]}, {"max_mappings": None}, {"max_mappings": 0},
+             {"max_mappings": 7, "edge_attrs": ["order"], "node_attrs": ["charge", "element", "hcount"]},
+             {"backend": "nX", "node_attrs": ["element", "charge"], "edge_attrs": ["order"], "wl1_filter": [0], "max_mappings": 50}]
+
+
+def _odd_sub(rng, c, p, z=None):
+    """Raw option values of the boolean subgraph entry points that only the option-handling code sees."""
+    z = rng.randrange(6) if z is None else z
+    filt = rng.random() < 0.5
+    ct = rng.choice(["induced", "mono"])
+    six = ["sm", "smp", "gm", "gmp", "is", "isp"]
+    if z == 0:       # other spellings of check_type: everything except exactly "induced" selects the monomorphism test
+        return ["sub", rng.choice(six), c, p, filt, rng.choice(["Induced", "INDUCED", "", "subgraph", "induced ", "iso"]), NAMES_DEF, "order"]
+    if z == 1:       # back-ends of the facade: "mod" is not installed (ImportError), anything else is unknown (ValueError)
+        return ["sub", rng.choice(["is", "isp"]), c, p, filt, ct, NAMES_DEF, "order", None, {"backend": rng.choice(["mod", "rule", "NX", ""])}]
+    if z == 2:       # edge_attribute=None: SubgraphMatch raises TypeError (after the filter, which may answer False first)
+        return ["sub", rng.choice(["sm", "smp", "is", "isp"]), c, p, filt, ct, NAMES_DEF, None]
+    if z == 3:       # names / defaults of different lengths: both the filter and the matcher zip them
+        nn, nd = rng.choice([(["element", "charge"], ["*"]), (["element"], ["*", 0]), ([], [0]), (["charge", "element"], [0]),
+                             (["element", "charge"], []), (["element", "charge", "aromatic"], ["*", 0])])
+        return ["sub", rng.choice(six), c, p, filt, ct, NAMES_DEF, "order", None, {"nn": nn, "nd": nd}]
+    if z == 4:       # comparators passed explicitly as None
+        return ["sub", rng.choice(["sm", "smp", "gm", "gmp"]), c, p, filt, ct, rng.choice(NAMES_ALT[:5]), rng.choice(["order", ""]), None, {"cmp_none": True}]
+    # truthy / falsy spellings of use_filter
+    return ["sub", rng.choice(six), c, p, rng.choice([0, 1, "", "yes", None, 2]), ct, rng.choice(NAMES_ALT[:4]), "order"]
 
 
 def _present(g, rng, extra=6):
@@ -848,8 +1226,42 @@ def _zoo():
     ]
 
 
-def gen_cases(tier, rng):
+def _gen_mccs(tier, rng):
+    """Common-subgraph helpers (graph_morphism.maximum_connected_common_subgraph / heuristics_MCCS): small graphs, every relation."""
     cases = []
+    sels = ["default", "default", [["element", "*"], ["charge", 0]], [["element", "*"]], [["charge", 0], ["element", "*"]], [],
+            [["element", "C"], ["charge", 0]]]
+    for t in range(120 if tier == "quick" else 600):
+        n = rng.randint(1, 5)
+        a = _rand_graph(rng, n, hc=rng.random() < 0.3)
+        z = rng.random()
+        if z < 0.2:
+            b = _present(a, rng, extra=10)
+        elif z < 0.45:
+            b = _edit(_present(a, rng, extra=10), rng)
+        elif z < 0.7:
+            b = _present(_sub_pattern(rng, a, induced=rng.random() < 0.6), rng, extra=10)
+        elif z < 0.9:
+            b = _rand_graph(rng, rng.randint(1, 5), hc=False)
+        else:
+            b = {"nodes": [], "edges": []}
+        c = _edit(_present(a, rng, extra=10), rng) if rng.random() < 0.6 else _rand_graph(rng, rng.randint(1, 4), hc=False)
+        gs = [a, b, c]
+        if rng.random() < 0.4:      # the default edge attribute of these helpers is "standard_order" (absent = 1)
+            for g in gs:
+                for e in g["edges"]:
+                    if rng.random() < 0.7:
+                        e[2]["standard_order"] = rng.choice([1, 1, 2, 0])
+        qs = []
+        for (i, j) in ((0, 1), (1, 0), (0, 2), (0, 0)):
+            qs.append(["mccs", i, j, rng.choice(sels), rng.choice(["default", "default", "order", "standard_order"])])
+        qs.append(["hmccs", rng.choice([[0, 1, 2], [1, 0, 2], [2, 1, 0], [0, 1], [0], [], [0, 2, 1, 0]]), rng.choice(sels), rng.choice(["default", "order"])])
+        cases.append(dict(kind="mccs", graphs=gs, engines=[], queries=qs))
+    return cases
+
+
+def gen_cases(tier, rng):
+    cases = _gen_mccs(tier, rng)
     # ---- degenerate values: all ordered pairs of the zoo (second graph renumbered), every entry point
     zoo = _zoo()
     for a in zoo:
@@ -861,7 +1273,7 @@ def gen_cases(tier, rng):
                 es[3] = {"na": ["charge"], "ea": [], "wl": True, "mm": None}
             cases.append(dict(kind="degenerate", graphs=gs, engines=es, queries=_battery(rng, [(0, 1)], len(es))))
     # ---- sizes >= 10 nodes (two-digit ids and counts): relabelled copy / one edit / planted sub-pattern
-    for t in range(12 if tier == "quick" else 60):
+    for t in range(12 if tier == "quick" else 40):
         n = rng.randint(10, 14)
         a = _rand_graph(rng, n, hc=rng.random() < 0.5)
         z = t % 4
@@ -880,7 +1292,7 @@ def gen_cases(tier, rng):
         es = [dict(E_FULL), dict(E_FULL, wl=True), {"na": ["charge", "element"], "ea": ["order"], "wl": True, "mm": 2}]
         cases.append(dict(kind="big", graphs=[a, b], engines=es, queries=_battery(rng, [(0, 1), (1, 0)], len(es), alt=False)))
     # ---- graph OBJECTS edited in place between queries (count-preserving and count-changing edits), results spoiled by the caller
-    for _ in range(200 if tier == "quick" else 1500):
+    for _ in range(200 if tier == "quick" else 1000):
         base = _rand_graph(rng, rng.randint(1, 5), hc=rng.random() < 0.5)
         vals = [base, _present(base, rng, extra=9)]
         vals.append(_edit_cp(vals[0], rng) if rng.random() < 0.7 else _edit(vals[0], rng))
@@ -916,29 +1328,29 @@ def gen_cases(tier, rng):
         small = noh[1] + noh[2] + noh[3]
         pairs = [(a, b) for a, b in itertools.combinations_with_replacement(small, 2)]
         pairs += [(a, b) for a, b in itertools.combinations_with_replacement(noh[4], 2)] if len(noh[4]) < 200 else \
-                 [(rng.choice(noh[4]), rng.choice(noh[4])) for _ in range(9000)]
-        pairs += [(rng.choice(small), rng.choice(noh[4])) for _ in range(3000)]
+                 [(rng.choice(noh[4]), rng.choice(noh[4])) for _ in range(5000)]
+        pairs += [(rng.choice(small), rng.choice(noh[4])) for _ in range(2000)]
     else:
         pairs = list(itertools.combinations_with_replacement(reps, 2))
     for a, b in pairs:
         ga, gb = _present(a, rng), _present(b, rng)
         gs = [ga, gb, _present(a, rng, extra=9)]
         es = _engines(rng)
-        cases.append(dict(kind="pairs", graphs=gs, engines=es, queries=_battery(rng, [(0, 1), (1, 0), (0, 2)], len(es), nosubs=((0, 2),), nfixed=5)))
+        cases.append(dict(kind="pairs", graphs=gs, engines=es, queries=_battery(rng, [(0, 1), (1, 0), (0, 2)], len(es), nosubs=((0, 2),), nfixed=5, thin=0.5)))
     # ---- hcount alphabet: ordered pairs
     hsmall = wh[1] + wh[2]
     hp = [(a, b) for a in hsmall for b in hsmall]
-    n3 = 500 if tier == "quick" else 4000
+    n3 = 400 if tier == "quick" else 2500
     hp += [(rng.choice(wh[3]), rng.choice(wh[3] if rng.random() < 0.7 else hsmall)) for _ in range(n3)]
     for a, b in hp:
         gs = [_present(a, rng), _present(b, rng)]
-        if rng.random() < 0.5:
+        if rng.random() < 0.3:
             gs.append(_edit(_present(a, rng, extra=9), rng) if rng.random() < 0.5 else _present(a, rng, extra=9))
         es = _engines(rng)
         prs = [(0, 1), (1, 0)] + ([(0, 2), (2, 0)] if len(gs) == 3 else [])
-        cases.append(dict(kind="hcount-pairs", graphs=gs, engines=es, queries=_battery(rng, prs, len(es), nosubs=((2, 0),))))
+        cases.append(dict(kind="hcount-pairs", graphs=gs, engines=es, queries=_battery(rng, prs, len(es), nosubs=((2, 0),), nfixed=5, thin=0.5)))
     # ---- random pairs <= 8 nodes: relabelled copies, one-edit neighbours, planted sub-patterns
-    for _ in range(600 if tier == "quick" else 4000):
+    for _ in range(600 if tier == "quick" else 2500):
         n = rng.randint(1, 8) if rng.random() < 0.5 else rng.randint(1, 6)
         a = _rand_graph(rng, n, hc=rng.random() < 0.6)
         z = rng.random()
@@ -976,10 +1388,10 @@ def gen_cases(tier, rng):
         for seq in itertools.product(opts3, repeat=L):
             cases.append(dict(kind="seq-exh3", graphs=trio, engines=e3, queries=[list(q) for q in seq]))
     if tier == "thorough":
-        for seq in rng.sample(list(itertools.product(opts_all, repeat=3)), 3000):
+        for seq in rng.sample(list(itertools.product(opts_all, repeat=3)), 2000):
             cases.append(dict(kind="seq-samp3", graphs=trio, engines=e2, queries=[list(q) for q in seq]))
     # ---- random long histories (up to 30 queries, 3-4 graph objects, 3-4 engines)
-    for _ in range(300 if tier == "quick" else 1500):
+    for _ in range(300 if tier == "quick" else 1000):
         base = _rand_graph(rng, rng.randint(2, 5), hc=rng.random() < 0.5)
         gs = [base, _present(base, rng, extra=9), _edit(_present(base, rng, extra=9), rng)]
         if rng.random() < 0.5:
